@@ -357,13 +357,17 @@ func sites() []site {
 				return wrongInst(i)
 			}}),
 		instSite("AtomicOp", "atomicrmw.op",
-			instShape{"atomicrmw i32", func(e *env, v uint64) { e.b.NewAtomicRMW(enum.AtomicOp(v), e.p, e.x, enum.AtomicOrderingSequentiallyConsistent) }, func(i ir.Instruction) (uint64, error) {
+			instShape{"atomicrmw i32", func(e *env, v uint64) {
+				e.b.NewAtomicRMW(enum.AtomicOp(v), e.p, e.x, enum.AtomicOrderingSequentiallyConsistent)
+			}, func(i ir.Instruction) (uint64, error) {
 				if c, ok := i.(*ir.InstAtomicRMW); ok {
 					return uint64(c.Op), nil
 				}
 				return wrongInst(i)
 			}},
-			instShape{"atomicrmw float", func(e *env, v uint64) { e.b.NewAtomicRMW(enum.AtomicOp(v), e.q, e.a, enum.AtomicOrderingSequentiallyConsistent) }, func(i ir.Instruction) (uint64, error) {
+			instShape{"atomicrmw float", func(e *env, v uint64) {
+				e.b.NewAtomicRMW(enum.AtomicOp(v), e.q, e.a, enum.AtomicOrderingSequentiallyConsistent)
+			}, func(i ir.Instruction) (uint64, error) {
 				if c, ok := i.(*ir.InstAtomicRMW); ok {
 					return uint64(c.Op), nil
 				}
